@@ -255,81 +255,147 @@ func runC11(c *Ctx) {
 }
 
 func (c *Ctx) checkReadySignals() {
-	type want struct {
-		suffix string
-		pairs  map[[2]int64]bool
-	}
 	agC, agS := c.ConstInt("protocol", "AgencyClient"), c.ConstInt("protocol", "AgencyServer")
 	rC, rS := c.ConstInt("protocol", "ProtocolRoleClient"), c.ConstInt("protocol", "ProtocolRoleServer")
-	wants := []want{
-		{".recvReadyChan", map[[2]int64]bool{{agC, rS}: true, {agS, rC}: true}},
-		{".sendReadyChan", map[[2]int64]bool{{agC, rC}: true, {agS, rS}: true}},
+	wants := map[string]map[[2]int64]bool{
+		".recvReadyChan": {{agC, rS}: true, {agS, rC}: true},
+		".sendReadyChan": {{agC, rC}: true, {agS, rS}: true},
 	}
-	union := map[string]map[[2]int64]bool{".recvReadyChan": {}, ".sendReadyChan": {}}
 	setStateKey := c.setStateKey()
-	defer func() {
-		for _, w := range wants {
-			same := len(union[w.suffix]) == len(w.pairs)
-			c.Check(same, "ready-signal-complete", "setState:"+w.suffix, 0, "every (agency,role) pair that grants this side a turn signals "+w.suffix,
-				fmt.Sprintf("%s is signalled for %v but must be for %v: a side holding agency is never woken", w.suffix, keysOf(union[w.suffix]), keysOf(w.pairs)))
+	var setState *ssa.Function
+	for _, fn := range c.pkgFuncs("protocol") {
+		if ssaFuncKey(fn) == setStateKey {
+			setState = fn
 		}
-	}()
-	for _, site := range liftedSendSites(c.pkgFuncs("protocol")) {
-		fn, in := site.Fn, site.At
-		fk := ssaFuncKey(fn)
-		{
-			{
-				chans := []string{desc(site.Chan)}
-				for _, ch := range chans {
-					for _, w := range wants {
-						if !strings.HasSuffix(ch, w.suffix) {
-							continue
+	}
+	if setState == nil {
+		c.Undecided("stateLoop's state setter not found")
+	}
+	// which ready channels a channel value can be: by field suffix, or the edges of a phi over them
+	suffixOf := func(v ssa.Value) string {
+		d := desc(v)
+		for suf := range wants {
+			if strings.HasSuffix(d, suf) {
+				return suf
+			}
+		}
+		return ""
+	}
+	chanKinds := func(v ssa.Value) (kinds []string, phi *ssa.Phi) {
+		if p, ok := v.(*ssa.Phi); ok {
+			for _, e := range p.Edges {
+				if s := suffixOf(e); s != "" {
+					kinds = append(kinds, s)
+				}
+			}
+			if len(kinds) == len(p.Edges) {
+				return kinds, p
+			}
+			return nil, nil
+		}
+		if s := suffixOf(v); s != "" {
+			return []string{s}, nil
+		}
+		return nil, nil
+	}
+	type site struct {
+		fn *ssa.Function
+		in ssa.Instruction
+		ch ssa.Value
+	}
+	var sites []site
+	for _, st := range liftedSendSites(c.pkgFuncs("protocol")) {
+		if k, _ := chanKinds(st.Chan); len(k) > 0 {
+			sites = append(sites, site{st.Fn, st.At, st.Chan})
+		}
+	}
+	got := map[string]map[[2]int64]bool{".recvReadyChan": {}, ".sendReadyChan": {}}
+	units := map[*ssa.Function][]site{}
+	for _, st := range sites {
+		fk := ssaFuncKey(st.fn)
+		kinds, _ := chanKinds(st.ch)
+		if st.fn != setState && !ownedBy(st.fn, []string{setStateKey}, 1) {
+			for _, k := range kinds {
+				c.Bad("ready-signal-owner", fk+":"+k, st.in.Pos(), "%s is signalled outside stateLoop's setState: agency can be granted without a state transition", k)
+			}
+			continue
+		}
+		units[st.fn] = append(units[st.fn], st)
+	}
+	for u, ss := range units {
+		fk := ssaFuncKey(u)
+		// atoms in the unit's vocabulary
+		var agencyAtom, roleAtom string
+		for _, ef := range edgeFacts(u) {
+			if i := strings.Index(ef.Fact, ".Agency == "); i > 0 {
+				agencyAtom = ef.Fact[:i+len(".Agency")]
+			}
+			if i := strings.Index(ef.Fact, ".config.Role == "); i > 0 {
+				roleAtom = ef.Fact[:i+len(".config.Role")]
+			}
+		}
+		agencySrc := agencyAtom
+		if u != setState {
+			// a helper of setState: the agency is the parameter that receives StateMap[new state].Agency
+			agencyAtom, agencySrc = "", ""
+			for _, ci := range callersInPkg(u) {
+				for i, a := range ci.Common().Args {
+					if d := desc(a); strings.HasSuffix(d, ".Agency") {
+						agencyAtom, agencySrc = fmt.Sprintf("p%d", i), d
+						// entry := StateMap[s] kept in a local: read through the single store
+						if t := trace(a); strings.HasPrefix(t, "Agency<lookup(StateMap<config<") && strings.Contains(t, ",p0)") {
+							agencySrc = "lookup(" + t + ".config.StateMap,p0)"
 						}
-						if fk != setStateKey {
-							c.Bad("ready-signal-owner", fk+":"+w.suffix, in.Pos(), "%s is signalled outside stateLoop's setState: agency can be granted without a state transition", w.suffix)
-							continue
-						}
-						// decision table over (agency, role) in {0,1,2}^2
-						var agencyAtom, roleAtom string
-						for _, ef := range edgeFacts(fn) {
-							if i := strings.Index(ef.Fact, ".Agency == "); i > 0 {
-								agencyAtom = ef.Fact[:i+len(".Agency")]
-							}
-							if i := strings.Index(ef.Fact, ".config.Role == "); i > 0 {
-								roleAtom = ef.Fact[:i+len(".config.Role")]
-							}
-						}
-						if agencyAtom == "" || roleAtom == "" {
-							c.Bad("ready-signal-table", fk+":"+w.suffix, in.Pos(), "setState does not branch on the new state's agency and the configured role")
-							continue
-						}
-						if !strings.HasPrefix(agencyAtom, "lookup(") || !strings.Contains(agencyAtom, ".config.StateMap,p0)") {
-							c.Bad("ready-signal-table", fk+":"+w.suffix, in.Pos(), "agency is read from %s, not from StateMap[new state]", agencyAtom)
-							continue
-						}
-						got := map[[2]int64]bool{}
-						for a := int64(0); a <= 2; a++ {
-							for r := int64(0); r <= 2; r++ {
-								if feasibleBlocks(fn, map[string]int64{agencyAtom: a, roleAtom: r})[in.Block()] {
-									got[[2]int64{a, r}] = true
-								}
-							}
-						}
-						sub := len(got) > 0
-						for k := range got {
-							if !w.pairs[k] {
-								sub = false
-							}
-							union[w.suffix][k] = true
-						}
-						c.Check(sub, "ready-signal-table", fmt.Sprintf("%s:%s:%s", fk, w.suffix, keysOf(got)), in.Pos(), fmt.Sprintf("signalled only for (agency,role) ∈ %v ⊆ %v", keysOf(got), keysOf(w.pairs)),
-							fmt.Sprintf("%s is signalled for (agency,role) ∈ %v, allowed are %v", w.suffix, keysOf(got), keysOf(w.pairs)))
 					}
 				}
 			}
 		}
+		if agencyAtom == "" || roleAtom == "" {
+			c.Bad("ready-signal-table", fk, u.Pos(), "the ready signals do not depend on the new state's agency and the configured role")
+			continue
+		}
+		if !strings.HasPrefix(agencySrc, "lookup(") || !strings.Contains(agencySrc, ".config.StateMap,p0)") {
+			c.Bad("ready-signal-table", fk, u.Pos(), "agency is read from %s, not from StateMap[new state]", agencySrc)
+			continue
+		}
+		for a := int64(0); a <= 2; a++ {
+			for r := int64(0); r <= 2; r++ {
+				psReachValV(u, []*ssa.BasicBlock{u.Blocks[0]}, nil, map[string]int64{agencyAtom: a, roleAtom: r}, func(b *ssa.BasicBlock, _ func(ssa.Value) (bool, bool)) {
+					for _, st := range ss {
+						if st.in.Block() != b {
+							continue
+						}
+						kinds, phi := chanKinds(st.ch)
+						if phi != nil && psChanChoice != nil {
+							if v, ok := psChanChoice(phi); ok {
+								kinds = []string{suffixOf(v)}
+							}
+						}
+						for _, k := range kinds {
+							got[k][[2]int64{a, r}] = true
+						}
+					}
+				})
+			}
+		}
 	}
-	c.Floor("ready-signal-table", 4)
+	for _, suf := range []string{".recvReadyChan", ".sendReadyChan"} {
+		sub, sup := true, true
+		for k := range got[suf] {
+			if !wants[suf][k] {
+				sub = false
+			}
+		}
+		for k := range wants[suf] {
+			if !got[suf][k] {
+				sup = false
+			}
+		}
+		c.Check(sub, "ready-signal-table", "setState:"+suf, setState.Pos(), fmt.Sprintf("signalled only for (agency,role) ∈ %v", keysOf(wants[suf])),
+			fmt.Sprintf("%s is signalled for (agency,role) ∈ %v, allowed are %v", suf, keysOf(got[suf]), keysOf(wants[suf])))
+		c.Check(sup, "ready-signal-complete", "setState:"+suf, setState.Pos(), "every (agency,role) pair that grants this side a turn signals "+suf,
+			fmt.Sprintf("%s is signalled for %v but must be for %v: a side holding agency is never woken", suf, keysOf(got[suf]), keysOf(wants[suf])))
+	}
 }
 
 func keysOf(m map[[2]int64]bool) string {
